@@ -332,8 +332,8 @@ func checkC05(r *core.Run) {
 			r.Check(res.OK, "R-C05-body", "IsFinal/"+key, p.Pos(isf.Pos()), what, what+": "+res.Problem)
 		}
 		chk("locktime-zero", "lock time 0 is final", an.MatchCmpConst(0, token.EQL, "field:lib/btc.Tx.Lock_time"))
-		chk("height-lock", "lock time below the height is final", matchCmp(token.LSS, has("field:lib/btc.Tx.Lock_time"), has("param:blockheight")))
-		chk("time-lock", "lock time below the time is final", matchCmp(token.LSS, has("field:lib/btc.Tx.Lock_time"), has("param:timestamp")))
+		chk("height-lock", "lock time below the height is final", matchCmp(token.LSS, has("field:lib/btc.Tx.Lock_time"), has("param#1")))
+		chk("time-lock", "lock time below the time is final", matchCmp(token.LSS, has("field:lib/btc.Tx.Lock_time"), has("param#2")))
 		// threshold selects height vs time
 		okT := false
 		for _, b := range isf.Blocks {
@@ -550,11 +550,12 @@ func c05Retarget(r *core.Run, p *core.Program) {
 		r.Fail(rule, "GetNextWorkRequired", "-", "not found")
 		return
 	}
-	ti := an.NewTermInterp(p, an.TermCfg{MaxPaths: 256, Name: func(s string) string {
+	ti := an.NewTermInterp(p, an.TermCfg{MaxPaths: 256, ParamNames: []string{"ch", "lst", "ts"}, Name: func(s string) string {
 		s = strings.ReplaceAll(s, "(*math/big.Int).", "big.")
 		s = strings.ReplaceAll(s, "math/big.", "big.")
 		return strings.ReplaceAll(s, "(*lib/chain.BlockTreeNode).", "node.")
 	}})
+	c05TestnetGap(r, p, rule, fn)
 	paths := ti.Run(fn)
 	// the mainnet retarget paths: result = GetCompact(Div(Mul(SetCompact(Bits(lst)), NewInt(T)), NewInt(1209600))) possibly clamped
 	n, okAll := 0, true
@@ -633,7 +634,29 @@ func c05Retarget(r *core.Run, p *core.Program) {
 		return true, false
 	}), rule, "interval-test", p.Pos(fn.Pos()), "(height+1) % 2016 decides whether to retarget", "the retarget boundary test (height+1) % 2016 is missing")
 	// walk-back count 2015
-	r.Check(findIf(an.MatchCmpConst(2015, token.LSS, "var:i")) || findIf(an.MatchCmpConst(2015, token.GEQ, "var:i")), rule, "walk-back-2015", p.Pos(fn.Pos()), "the period's first block is 2015 parents back", "walk-back count is not targetInterval-1 = 2015")
+	isCounter := func(iff *ssa.If) (bool, bool) {
+		// "i < 2015" on a loop counter that starts at 0 and steps by one, whatever it is called
+		x, y, rel, ok := an.CondCmp(iff.Cond)
+		if !ok {
+			return false, false
+		}
+		k, isC := an.ConstOf(y)
+		phi, isPhi := c17StripConv(x).(*ssa.Phi)
+		if !isC || !isPhi || k.Int64() != 2015 || (rel != token.LSS && rel != token.GEQ) {
+			return false, false
+		}
+		st, sp := false, false
+		for _, e := range phi.Edges {
+			if c, ok := an.ConstOf(e); ok && c.Sign() == 0 {
+				st = true
+			}
+			if bo, ok := e.(*ssa.BinOp); ok && bo.Op == token.ADD && bo.X == ssa.Value(phi) && an.Expr(bo.Y) == "1" {
+				sp = true
+			}
+		}
+		return st && sp, rel == token.LSS
+	}
+	r.Check(findIf(isCounter), rule, "walk-back-2015", p.Pos(fn.Pos()), "the period's first block is 2015 parents back", "walk-back count is not targetInterval-1 = 2015")
 	r.Check(findIf(an.MatchCmpConst(0, token.GTR, "call:(*math/big.Int).Cmp", "~.MaxPOWValue")), rule, "pow-limit-clamp", p.Pos(fn.Pos()), "result clamped to the proof-of-work limit", "clamp to MaxPOWValue missing")
 
 	// median time past
@@ -1089,4 +1112,99 @@ func nonBlockingSendsKept(r *core.Run, p *core.Program, rule, key string, inPkg 
 	}
 	sort.Strings(bad)
 	r.Check(len(bad) == 0 && n >= 1, rule, key, "-", fmt.Sprintf("%d non-blocking send(s) into channels of known capacity, each >= 1", n), strings.Join(bad, "; "))
+}
+
+// c05WrapFreeSub: every subtraction in the operand tree of v (through conversions, sums, differences and
+// products with a constant) is carried out in a signed 64-bit type.  Returns the first offending rendering.
+func c05WrapFreeSub(v ssa.Value, d int) string {
+	if d > 20 {
+		return ""
+	}
+	switch x := v.(type) {
+	case *ssa.Convert:
+		return c05WrapFreeSub(x.X, d+1)
+	case *ssa.ChangeType:
+		return c05WrapFreeSub(x.X, d+1)
+	case *ssa.BinOp:
+		switch x.Op {
+		case token.SUB:
+			if bt, ok := x.Type().Underlying().(*types.Basic); !ok || (bt.Kind() != types.Int64 && bt.Kind() != types.Int && bt.Kind() != types.UntypedInt) {
+				return an.Expr(x) + " (" + x.Type().String() + ")"
+			}
+			fallthrough
+		case token.ADD, token.MUL:
+			if s := c05WrapFreeSub(x.X, d+1); s != "" {
+				return s
+			}
+			return c05WrapFreeSub(x.Y, d+1)
+		}
+	}
+	return ""
+}
+
+// c05TestnetGap: the testnet exception of the retarget rule.  Between retarget heights, on a test network,
+// a block whose timestamp is more than 2*600 s after its parent's may use the minimum difficulty.  The test
+// must be "ts - parent.time - 1200 > 0" evaluated without unsigned wrap-around (a block may be timestamped
+// before its parent), must be made only on a test network, and its positive outcome returns the
+// proof-of-work limit bits.
+func c05TestnetGap(r *core.Run, p *core.Program, rule string, fn *ssa.Function) {
+	const key = "testnet-min-difficulty-gap"
+	want := map[string]int64{"param#2": 1, "(*lib/chain.BlockTreeNode).Timestamp(param#1)": -1, "": -1200}
+	found := 0
+	for _, b := range fn.Blocks {
+		iff, ok := b.Instrs[len(b.Instrs)-1].(*ssa.If)
+		if !ok {
+			continue
+		}
+		x, y, rel, ok := an.CondCmp(iff.Cond)
+		if !ok {
+			continue
+		}
+		d := c13LinDiff(x, y)
+		neg := map[string]int64{}
+		for a, k := range d {
+			neg[a] = -k
+		}
+		gapSucc := -1
+		switch {
+		case c13LinEq(d, want) && rel == token.GTR, c13LinEq(neg, want) && rel == token.LSS:
+			gapSucc = 0
+		case c13LinEq(d, want) && rel == token.LEQ, c13LinEq(neg, want) && rel == token.GEQ:
+			gapSucc = 1
+		default:
+			continue
+		}
+		found++
+		pos := p.Pos(iff.Cond.Pos())
+		if s := c05WrapFreeSub(x, 0) + c05WrapFreeSub(y, 0); s != "" {
+			r.Fail(rule, key, pos, "the 20-minute test subtracts in a type that wraps around when the block is timestamped before its parent: "+s)
+			continue
+		}
+		onTestnet := false
+		for _, dc := range an.DomConds(b) {
+			if c, ok := dc.If.Cond.(*ssa.Call); ok && dc.True && an.CallName(c) == "(*lib/chain.Chain).testnet" {
+				onTestnet = true
+			}
+		}
+		if !onTestnet {
+			r.Fail(rule, key, pos, "the 20-minute exception is not restricted to test networks")
+			continue
+		}
+		// follow the positive outcome to its return
+		blk := b.Succs[gapSucc]
+		for i := 0; i < 4 && len(blk.Succs) == 1; i++ {
+			blk = blk.Succs[0]
+		}
+		ret, isRet := blk.Instrs[len(blk.Instrs)-1].(*ssa.Return)
+		if !isRet || len(ret.Results) != 1 || !an.HasAll(an.Atoms(ret.Results[0]), "~.MaxPOWBits") {
+			r.Fail(rule, key, pos, "a gap of more than 20 minutes does not return the proof-of-work limit bits")
+			continue
+		}
+		r.OK(rule, key, pos, "ts > parent.time + 1200, without wrap-around, on test networks only, returns the limit bits")
+	}
+	if found != 1 {
+		r.Fail(rule, key+"/present", p.Pos(fn.Pos()), fmt.Sprintf("%d tests 'timestamp more than 1200 s after the parent' found in the retarget rule (expected 1)", found))
+	} else {
+		r.OK(rule, key+"/present", p.Pos(fn.Pos()), "one 20-minute test")
+	}
 }
